@@ -23,7 +23,7 @@ theorem rulesInv_init (cfg : Cfg) (inits : List DVal) (hin : cfg.args.length ≤
 
 theorem rulesInv_step {cfg : Cfg} (wf : cfg.WellFormed) {inits : List DVal} {h : HState} {u : Use} {h' : HState}
     (a : RulesInv cfg inits h) (e : applyUse cfg h u = .ok h') : RulesInv cfg inits h' :=
-  ⟨frame_step a.frame e, argInv_step a.frame a.args e, values_step a.values e, pendInv_step wf a.pend e,
+  ⟨frame_step a.frame e, argInv_step a.frame a.args e, values_step a.values e, pendInv_step wf.disjoint wf.argKeys a.pend e,
     globInv_step a.glob e⟩
 
 /-- the invariants hold after any sequence of uses from the initial state -/
@@ -35,20 +35,6 @@ theorem rulesInv_applyUses {cfg : Cfg} (wf : cfg.WellFormed) {inits : List DVal}
       (rulesInv_init cfg inits hin) e
   · have := applyUses_uses us _ _ e
     simpa [Cfg.initState] using this
-
-theorem endChecks_ok {cfg : Cfg} {h h' : HState} (e : endChecks cfg h = .ok h') :
-    checkMandatoryCardinality cfg.args h.args = .ok () ∧ pendingCheckRequired h.pending = .ok () ∧
-    checkGlobals cfg.globals h.globals = .ok () ∧ h' = { h with lastArg := none } := by
-  unfold endChecks at e
-  simp only [bind_eq_ok] at e
-  obtain ⟨_, h1, _, h2, _, h3, e⟩ := e
-  cases e
-  exact ⟨h1, h2, h3, rfl⟩
-
-theorem evalUses_ok {cfg : Cfg} {h0 h : HState} {us : List Use} (e : evalUses cfg h0 us = .ok h) :
-    ∃ h1, applyUses cfg h0 us = .ok h1 ∧ endChecks cfg h1 = .ok h := by
-  unfold evalUses at e
-  simpa only [bind_eq_ok] using e
 
 /-- **Soundness of the rules layer.**  For every well-formed configuration, all initial values and
     every abstract command line: if the evaluation returns normally, the command line obeys the
@@ -62,5 +48,50 @@ theorem rules_sound {cfg : Cfg} (wf : cfg.WellFormed) {inits : List DVal}
   subst hus
   exact ⟨mandatory_sound inv.args c1, inv.values, cardinality_sound wf.cardSane inv.args c1,
     inv.pend.hist, requires_sound inv.pend c2, globals_sound inv.frame inv.glob c3⟩
+
+/-! ### the single rules under the hypotheses each of them needs -/
+
+/-- rule "values" alone: no hypothesis on the configuration -/
+theorem values_sound {cfg : Cfg} {inits : List DVal} {us : List Use} {h : HState}
+    (e : evalUses cfg (cfg.initState inits) us = .ok h) : ObeysValues cfg us := by
+  obtain ⟨h1, ha, _⟩ := evalUses_ok e
+  have := applyUses_inv (fun x => ObeysValues cfg x.uses) (fun _ _ _ a e => values_step a e) us _ _
+    (by intro u hu; simp [Cfg.initState] at hu) ha
+  have hus := applyUses_uses us _ _ ha
+  simp only [Cfg.initState, List.nil_append] at hus
+  rw [← hus]; exact this
+
+/-- rules "mandatory", "cardinality", "handler constraints": local to one argument resp. one
+    constraint object, no hypothesis on the keys -/
+theorem local_rules_sound {cfg : Cfg} {inits : List DVal} (hin : cfg.args.length ≤ inits.length)
+    {us : List Use} {h : HState} (e : evalUses cfg (cfg.initState inits) us = .ok h) :
+    ObeysMandatory cfg inits us ∧ ((∀ d ∈ cfg.args, d.card.Sane) → ObeysCardinality cfg us) ∧
+    ObeysGlobals cfg us := by
+  obtain ⟨h1, ha, he⟩ := evalUses_ok e
+  obtain ⟨c1, _, c3, _⟩ := endChecks_ok he
+  have inv : Frame cfg h1 ∧ ArgInv cfg inits h1 ∧ GlobInv cfg h1 :=
+    applyUses_inv (fun x => Frame cfg x ∧ ArgInv cfg inits x ∧ GlobInv cfg x)
+      (fun _ _ _ a e => ⟨frame_step a.1 e, argInv_step a.1 a.2.1 e, globInv_step a.2.2 e⟩) us _ _
+      ⟨frame_init cfg inits hin, argInv_init cfg inits hin, globInv_init cfg inits⟩ ha
+  have hus := applyUses_uses us _ _ ha
+  simp only [Cfg.initState, List.nil_append] at hus
+  subst hus
+  exact ⟨mandatory_sound inv.2.1 c1, fun hs => cardinality_sound hs inv.2.1 c1, globals_sound inv.1 inv.2.2 c3⟩
+
+/-- rules "excludes" and "requires": need the keys of the table to be pairwise distinct and the
+    constraint keys to be spellings of table keys -/
+theorem constraints_sound {cfg : Cfg} (hdis : Disjoint cfg.table)
+    (hkeys : ∀ d ∈ cfg.args, ∀ c ∈ d.constraints, ∀ k ∈ c.2, ∃ j, Names cfg k j)
+    {inits : List DVal} {us : List Use} {h : HState}
+    (e : evalUses cfg (cfg.initState inits) us = .ok h) : ObeysExcludes cfg us ∧ ObeysRequires cfg us := by
+  obtain ⟨h1, ha, he⟩ := evalUses_ok e
+  obtain ⟨_, c2, _, _⟩ := endChecks_ok he
+  have inv : PendInv cfg h1 :=
+    applyUses_inv (PendInv cfg) (fun _ _ _ a e => pendInv_step hdis hkeys a e) us _ _
+      (pendInv_init cfg inits) ha
+  have hus := applyUses_uses us _ _ ha
+  simp only [Cfg.initState, List.nil_append] at hus
+  subst hus
+  exact ⟨inv.hist, requires_sound inv c2⟩
 
 end CelmaVerif.ProgArgs
